@@ -146,7 +146,7 @@ class Explorer:
         self.lock = threading.Lock()
         self.stats = dict(cases=0, paths=0, infeasible=0, outside=0, aborted=0, asserts=0, ok=0, viol=0, unk=0, queries=0, q_unsat=0, q_sat=0, q_unk=0,
                           qsec=0.0, decisions=0, maxpc=0, crashes=0, timeouts=0, pending=0, events={}, by_id={}, notes_sum={}, global_stores=0, ws_viol=0, heap_errors=0)
-        self.reach = set(); self.reach_sym = set(); self.divs = []; self.viols = []; self.unks = []; self.crashlog = []; self.samples = []; self.case_paths = {}; self.case_sec = {}
+        self.nevlog = 0; self.ncrlog = 0; self.reach = set(); self.reach_sym = set(); self.divs = []; self.viols = []; self.unks = []; self.crashlog = []; self.samples = []; self.case_paths = {}; self.case_sec = {}
         os.makedirs(outdir, exist_ok=True)
 
     def _one(self, case, prefix):
@@ -219,17 +219,17 @@ class Explorer:
                 elif k == "V": self.viols.append({"case": list(case), **r})
                 elif k == "U": self.unks.append({"case": list(case), **r})
                 elif k == "E":
-                    if len(self.crashlog) < 20: self.crashlog.append({"case": list(case), "event": r})
+                    if self.nevlog < 20: self.nevlog += 1; self.crashlog.append({"case": list(case), "event": r})     # events and crashes are capped separately (events must not crowd out crashes)
                     if str(r.get("ev", "")).startswith("div-by") and len(self.divs) < 2000: self.divs.append({"case": list(case), **r})
                 elif k == "C":
                     self.viols.append({"case": list(case), "concrete": True, "path": prefix, **r})
             if rc == -999: st["timeouts"] += 1
             elif rc != 0 and not (got_p and rc in (255, 1, 0)):
                 st["crashes"] += 1
-                if len(self.crashlog) < 20: self.crashlog.append({"case": list(case), "prefix": prefix, "rc": rc, "stderr": err[-3000:]})
+                if self.ncrlog < 60: self.ncrlog += 1; self.crashlog.append({"case": list(case), "prefix": prefix, "rc": rc, "stderr": err[-3000:]})
             elif rc != 0 and any(s in err for s in ("AddressSanitizer", "runtime error:")):
                 st["crashes"] += 1
-                if len(self.crashlog) < 20: self.crashlog.append({"case": list(case), "prefix": prefix, "rc": rc, "stderr": err[-3000:]})
+                if self.ncrlog < 60: self.ncrlog += 1; self.crashlog.append({"case": list(case), "prefix": prefix, "rc": rc, "stderr": err[-3000:]})
 
 
 def cvc5_recheck(unks, timeout=30):
